@@ -79,10 +79,13 @@ theorem sort_mirror (L : Int) (spans : List (Int × Int)) (h : ViewSpans L spans
     exact hp.imp (fun ⟨h1, h2, h3⟩ => by unfold PLe; simp only []; omega)
   · exact (sortSpans_perm _).trans (List.reverse_perm _).symm
 
-theorem added_feature_spec (v : View) (h : UnitView v) (hl : 0 < len v) (hoff : 0 ≤ v.offset) (minus : Bool)
+/-- full form: additionally the Feature `add_feature` itself returns (`make_feature` on `rel_spans` with the db strand)
+is the very feature a later `get_features` on the same view builds from the record -/
+theorem added_feature_spec_full (v : View) (h : UnitView v) (hl : 0 < len v) (hoff : 0 ≤ v.offset) (minus : Bool)
     (spans : List (Int × Int)) (hs : ViewSpans (len v) spans) :
     ∃ db dm f, addFeatureRecord v spans minus = .ok (db, dm) ∧ featureOnView v dm db = .ok f ∧
-      realSpans f.spans = spans ∧ f.reversed = minus := by
+      realSpans f.spans = spans ∧ f.reversed = minus ∧
+      makeFeature (len v) (decide (v.step < 0)) dm (addRelSpans v spans) = .ok f := by
   have hlen := len_unit v h
   have hI := h.1
   obtain ⟨hn, hinv⟩ := hI
@@ -111,12 +114,13 @@ theorem added_feature_spec (v : View) (h : UnitView v) (hl : 0 < len v) (hoff : 
       (fun sp hx => by have := hs.1 sp hx; omega)
       (hs.2.imp_of_mem (fun {a b} ha hb hab => by have := hs.1 a ha; omega))
     have e1 : decide (v.step < 0) = false := decide_eq_false e0
-    refine ⟨f, ?_, ?_, ?_, ?_⟩
+    refine ⟨f, ?_, ?_, ?_, ?_, ?_⟩
     · unfold addFeatureRecord; rw [hps]; simp only [e0, if_false]
     · unfold featureOnView; rw [hrel]; exact hf
     · rw [hreal, e1]; simp only [Bool.false_eq_true, if_false]
       exact filterMap_clipped_id _ _ hs.1
     · rw [hrev, e1]; cases minus <;> rfl
+    · unfold addRelSpans; rw [if_neg e0]; exact hf
   · -- reverse complemented view
     rw [hstep] at hinv hlen
     simp at hinv hlen
@@ -154,7 +158,7 @@ theorem added_feature_spec (v : View) (h : UnitView v) (hl : 0 < len v) (hoff : 
     obtain ⟨f, hf, hrev, hreal⟩ := makeFeature_spec (len v) (decide (v.step < 0)) (!minus) mir hl
       (fun sp hx => by have := hmirV sp hx; omega) hsortedMir
     have e1 : decide (v.step < 0) = true := decide_eq_true e0
-    refine ⟨f, ?_, ?_, ?_, ?_⟩
+    refine ⟨f, ?_, ?_, ?_, ?_, ?_⟩
     · unfold addFeatureRecord; rw [hps]; simp only [e0, if_true]
       rw [sort_mirror (len v) spans hs]
     · unfold featureOnView; rw [hrel]; exact hf
@@ -167,4 +171,23 @@ theorem added_feature_spec (v : View) (h : UnitView v) (hl : 0 < len v) (hoff : 
       simp only [Function.comp, id]
       apply Prod.ext <;> simp only [] <;> omega
     · rw [hrev, e1]; cases minus <;> rfl
+    · unfold addRelSpans; rw [if_pos e0, sort_mirror (len v) spans hs]; exact hf
+
+theorem added_feature_spec (v : View) (h : UnitView v) (hl : 0 < len v) (hoff : 0 ≤ v.offset) (minus : Bool)
+    (spans : List (Int × Int)) (hs : ViewSpans (len v) spans) :
+    ∃ db dm f, addFeatureRecord v spans minus = .ok (db, dm) ∧ featureOnView v dm db = .ok f ∧
+      realSpans f.spans = spans ∧ f.reversed = minus := by
+  obtain ⟨db, dm, f, h1, h2, h3, h4, _⟩ := added_feature_spec_full v h hl hoff minus spans hs
+  exact ⟨db, dm, f, h1, h2, h3, h4⟩
+
+/-- the whole of `add_feature` (Model/FeatureAdd.lean `addFeature`): record + returned feature -/
+theorem addFeature_spec (v : View) (h : UnitView v) (hl : 0 < len v) (hoff : 0 ≤ v.offset) (minus : Bool)
+    (spans : List (Int × Int)) (hs : ViewSpans (len v) spans) :
+    ∃ db dm f, addFeature v spans minus = .ok ((db, dm), f) ∧ featureOnView v dm db = .ok f ∧
+      realSpans f.spans = spans ∧ f.reversed = minus := by
+  obtain ⟨db, dm, f, h1, h2, h3, h4, h5⟩ := added_feature_spec_full v h hl hoff minus spans hs
+  refine ⟨db, dm, f, ?_, h2, h3, h4⟩
+  unfold addFeature
+  rw [h1]
+  simp only [liftErr, h5]
 end CogentModel.FeatureView
